@@ -143,8 +143,8 @@ func c11RunSchedule(s c11Schedule) (res c11Result) {
 				sd.cancel()
 			}
 		}
-		ts.CloseClientConnections()
-		ts.Close()
+		closeClientConns(ts)
+		closeTS(ts)
 	}()
 	ctx := context.Background()
 	sid, err := peer.Handshake(ctx, r.url, nil)
